@@ -24,7 +24,7 @@ CLAIMED = {
  "C03": dict(
    text="Theorems: C03_default_of_eq_walk (default_of = the inheritance walk for every mapping: chains, forks, cycles, self-loops; fuel m.length+1 suffices), C03_compute_partition/_disjoint/_covers (match arms), "
         "C03_mapping_iff (a locale is mapped iff its value is null/absent, all depths), C03_subkeys_uniform, C03_fallback_end_to_end (through check_locales_inner), C03_default_never_defaults. "
-        "Correspondence: effective locale reported by the real DefaultedLocales for every key x locale vs an independent walk over inherits and the files' presence pattern; exhaustive over all inherits maps on 4 locales x presence patterns in the thorough tier.",
+        "Correspondence: effective locale reported by the real DefaultedLocales for every key x locale vs an independent walk over inherits and the files' presence pattern; exhaustive over all inherits maps on 4 locales x presence patterns in the thorough tier. Also: references read through the same walk (C06's fallback-walk family), the `suppress_key_warnings` build, compiled probe crates, and a compile-only probe of a generated project in the `dynamic_load`+`ssr` feature set.",
    note=BASE + "Foreign keys read their target along the same walk since fix 4bd75c2 (C06_target_from_fallback_walk; checked by C06).", tech=P, ref="§6 C03, notes/C03.md"),
  "C04": dict(
    text="Theorems: C04_do_match_meaning (do_match = interval membership for every range shape, all ten types, exact decimals), C04_new_simple_int/_incl_int/_open_int/_float (what Range::new returns: a..b means x<=n<y via checked_sub, "
@@ -54,7 +54,7 @@ CLAIMED = {
  "C09": dict(
    text="Theorems: C09_parse_no_panic (for EVERY string ParsedValue::new's model reaches no panic outcome; fuel |s|+1 suffices: every recursive call is on a strictly shorter string, incl. decoded foreign-key arguments), C09_parse_fuel_irrelevant, "
         "C09_depth_linear, C09_decode_no_panic, C09_slices_in_bounds_*, C09_range_new_total; whole pipeline (Theorems/C09Pipeline.lean): C09_pipeline_no_panic(_of_config): for every configuration produced by Config.new and EVERY set of decoded files, Pipeline.run (decode, merge plurals, resolve foreign keys, check, index strings, builder keys) returns ok or a diagnostic, never a panic outcome, with sufficient fuel at every stage; C02_codegen_total + C01_source_renderable for the generator. Correspondence: parser, code generator (in-process) and build helper under catch_unwind on token soup, "
-        "byte-mutated files, past panic witnesses (F1-F7, F18, F19, F21) and generated projects; deep inputs in subprocesses.",
+        "byte-mutated files, past panic witnesses (F1-F7, F18, F19, F21) and generated projects; deep inputs in subprocesses. Also: the generator and parser harnesses in their YAML and JSON5 builds (what those formats can say and JSON cannot: non-finite floats, anchors, hex, comments), identifier-like odd locale names through the generator, ranges with up to 63 branches, deep nesting (127..20000 levels) in the three formats. Known findings: F8 (40000 interpolations) and C09-json5-pest (200000 nested objects overflow the third-party JSON5 reader).",
    note=BASE + "Stack exhaustion is runtime behaviour the model cannot exhibit (only a linear depth bound is proved): known finding F8. Offsets are character offsets in the model; byte/char boundary safety is tied by the correspondence with multibyte characters next to every delimiter.",
    tech=P + "; panic sites are explicit outcomes", ref="§6 C09, notes/C09.md"),
  "C10": dict(
@@ -72,13 +72,13 @@ CLAIMED = {
         "locale is supported, matches the first request any supported locale serves, is the exact match if one exists and otherwise a most "
         "specific less-specific form; default when nothing matches; unparseable entries ignored (C12_find_match_acceptable and lemmas). "
         "Correspondence: runtime harness path-includes the private langid.rs and runs filter_matches/find_match/find_locale/find_matchs on 4 "
-        "declare_locales! enums; model and executable spec are run on the same cases.",
+        "declare_locales! enums; model and executable spec are run on the same cases. Also: the supported locales are read off their configured names by the check, and the same negotiation is run through contexts (init_i18n_context / resolve_locale_with_options without cookie, harness ctx_h).",
    note=BASE + "ICU4X LanguageIdentifier parsing is an oracle. No hooks.",
    tech="Lean 4 proof (induction over request list, stable-sort head lemma) + differential correspondence", ref="§6 C12"),
  "C13": dict(
    text="Theorems over a model of the generated Locale enum: C13_from_str_iff (from_str s = l iff trim s = name l), C13_from_str_as_str, C13_not_a_name (non-names parse to none / serde default), C13_serde_roundtrip (serde + cookie codec), "
         "C13_get_all, C13_default_first_perm, C13_config_new_wf, C13_all_representations. Correspondence: 5 locale sets (regions, scripts, variants, near-duplicates, RTL, default listed last / not listed) via declare_locales! and load_locales!: every identity method vs model vs ICU4X oracle; "
-        "~11k strings around every name (case, 25 White_Space chars, prefixes, suffixes).",
+        "~11k strings around every name (case, 25 White_Space chars, prefixes, suffixes). Serde round trips also through bincode and postcard (formats that are not self-describing).",
    note=BASE + "ICU locale / langid / direction are computed by ICU4X at macro time: oracle (direct ICU4X calls + CLDR excerpt). Scoped-wrapper theorems are thin.", tech="Lean 4 proof + differential correspondence", ref="§6 C13, notes/C13.md"),
  "C14": dict(
    text="Lean theorems over a model of routing.rs path functions (PathBuilder, get_locale_from_path, get_new_path, localize_path, match/construct_path_segments): "
@@ -94,7 +94,7 @@ CLAIMED = {
    tech="Lean 4 proof (decision logic) + exhaustive differential correspondence", ref="§6 C15, notes/C15.md"),
  "C16": dict(
    text="Refinement theorem: for every operation sequence over a tree of contexts (set, set_untracked, get, scope, subcontext, closures) the model's observations equal the abstract spec CtxId→Locale "
-        "(latest set wins; scoped views share the cell; sub-contexts isolated) — C16_refinement, C16_isolation(_seq), C16_scope_shares; reactive observers: C16_memo_refinement (Memos with leptos' laziness modelled: a tracked set marks every observer dirty, an untracked one none — C16_tracked_set_notifies(_after_untracked), C16_untracked_set_keeps_cache); provider components over an owner tree: C16_provider_scoping(_seq), C16_sibling_provider_inits_from_parent. Correspondence: random op sequences (set/set_untracked/get/scope/subcontext/memos over get_locale, t_string!, td_string!, t_display!, t_plural!/provider/child owner/use_context, accessors of every macro flavour incl. t_plural!, executor ticks at arbitrary positions) on real I18nContexts, on two harness builds: plain ssr, and one where Effects / RenderEffects really run (reactive_graph/effects); C16_ticks_invisible (Theorems/C16Ticks.lean: inserting ticks anywhere changes no observation of model or specification) and leptos owners vs model vs spec.",
+        "(latest set wins; scoped views share the cell; sub-contexts isolated) — C16_refinement, C16_isolation(_seq), C16_scope_shares; reactive observers: C16_memo_refinement (Memos with leptos' laziness modelled: a tracked set marks every observer dirty, an untracked one none — C16_tracked_set_notifies(_after_untracked), C16_untracked_set_keeps_cache); provider components over an owner tree: C16_provider_scoping(_seq), C16_sibling_provider_inits_from_parent. Correspondence: random op sequences (set/set_untracked/get/scope/subcontext/memos over get_locale, t_string!, td_string!, t_display!, t_plural!/provider/child owner/use_context, accessors of every macro flavour incl. t_plural!, executor ticks at arbitrary positions) on real I18nContexts, on two harness builds: plain ssr, and one where Effects / RenderEffects really run (reactive_graph/effects); C16_ticks_invisible (Theorems/C16Ticks.lean: inserting ticks anywhere changes no observation of model or specification) and leptos owners vs model vs spec. Wired sub-contexts (harness ops sub_wired / wire_set, model Wire + delivery at tick, Theorems/C16Wired.lean, an oracle that does not use the model), `t_plural!` and `t_format!` accessor kinds.",
    note=BASE + "leptos' reactive runtime (closure re-execution, RwSignal atomicity, effect scheduling) is trusted; effects run natively on a FIFO executor, not in wasm; a caller-wired initial-locale signal that changes (the property's stated exception) is not exercised. See notes/C16.md.",
    tech="Lean 4 proof (refinement by induction over op lists) + differential correspondence", ref="§6 C16, notes/C16.md"),
  "C12": dict(
@@ -115,7 +115,7 @@ CLAIMED = {
    note=BASE + "ICU4X output is the oracle (no theorem); RwLock atomicity and leaked formatters trusted. Known finding C18-zone: time_length full|long cannot be rendered.", tech="Lean 4 proof + differential correspondence + ICU4X oracle", ref="§6 C18, notes/C18.md"),
  "C19": dict(
    text="Theorems over Config.new: C19_default_first (default first, present, no duplicates, set = listed + default), C19_duplicates_rejected, C19_inherits_valid / _unknown_rejected / _default_inherits_rejected, C19_required_fields, C19_unknown_ignored, "
-        "C19_files_read(_order) (exactly the (namespace, locale) files in configuration order). Correspondence: ConfigFile::new on ~3k generated manifests (exhaustive locale lists <=3 over 4 names x 3 defaults) vs model vs independent spec; tracked files for generated layouts x 3 formats.",
+        "C19_files_read(_order) (exactly the (namespace, locale) files in configuration order). Correspondence: ConfigFile::new on ~3k generated manifests (exhaustive locale lists <=3 over 4 names x 3 defaults) vs model vs independent spec; tracked files for generated layouts x 3 formats. Manifests mentioning the section header in comments / strings, CRLF line endings, files present only under another format's extension.",
    note=BASE + "The TOML parser is an oracle (model starts from the decoded table); `rest of Cargo.toml ignored` is tied by the correspondence only.", tech=P, ref="§6 C19, notes/C19.md"),
  "C20": dict(
    text="Theorems over a model of find_used_datakey: C20_options_iff / C20_plurals_iff / C20_formatter_iff (option in the set iff some builder key records a plural count / a formatter of that family, any subkey depth, all namespaces), "
